@@ -7,7 +7,7 @@ Line protocol for C10 (same lines the harness `c10_harness` prints, plus a heade
   style script|table            which `Memorize` / `Query` the translator under test has
   predict none|script <n>|table candidate-list prediction: off / script style with fixed syllable length n / table style
   dict <text> <code> <weight>   one row of the static dictionary (for the prediction)
-  E reset | E query <ns> | E commit <now> <nseg> (<status> <sel>)* | E delete <sel> | E unhandled <keycode> <mod> <now> | E close <ns>
+  E reset | E query <ns> <lookup 0|1> | E commit <now> <nseg> (<status> <sel>)* | E delete <sel> | E unhandled <keycode> <mod> <now> | E close <ns>
         <sel> ::= n - - | u <text> - | p <text> <code> | s <text> <code> <k> (<text> <code>)^k
   O db …      → `M db tick=<durable tick> member=<tick_> intxn=<0|1> n=<k> <code>|<text>|<c>|<dee bits>|<t> …` (sorted by key)
   O cands …   → `M cands <text>:<class>:<end> …` (class u user, s system, t sentence) or `M cands -` when not predicted
@@ -260,8 +260,8 @@ def step (st : St) (line : String) : St × List String :=
     | _, _, _ => (st, ["bad-op"])
   | "#" :: "op" :: n :: _ => (st, ["# op " ++ n])
   | ["E", "reset"] => ({ st with ud := UD.empty }, [])
-  | "E" :: "query" :: ns :: _ =>
-    if ns == "translator" then ({ st with ud := st.ud.onQuery st.style }, []) else (st, [])
+  | ["E", "query", ns, flag] =>
+    if ns == "translator" then ({ st with ud := st.ud.onQuery st.style (flag == "1") }, []) else (st, [])
   | "E" :: "close" :: ns :: _ =>
     -- ~UserDictionary commits the pending transaction; the next instance loads the durable tick count
     if ns == "translator" then ({ st with ud := st.ud.commitPending.fetchTick }, []) else (st, [])
